@@ -516,4 +516,3 @@ func TestC06(t *testing.T) {
 		}
 	})
 }
-
